@@ -232,7 +232,7 @@ theorem chkThrift_refines (oracle : Bytes → Bool) (b : Bytes) :
         rw [hsame]; frame_len_defs; simp at h2; omega
       have hfl : ∀ m, thrift_drain (thrift_frameLength m) = m + 4 := by intro m; frame_len_defs
       have hlo : thrift_bodyLo = 4 := by frame_len_defs
-      have hhi : ∀ m, thrift_bodyHi m = 4 + m := by intro m; frame_len_defs
+      have hhi : ∀ m, thrift_bodyHi m = 4 + m := by intro m; frame_len_defs; try omega
       have hfr : ∀ m, thrift_frameLength m = m + 4 := by intro m; frame_len_defs
       have hml : thrift_messageLen.2 ≤ 4 := by frame_len_defs; omega
       generalize hm : fld b thrift_messageLen = m at hn ⊢
